@@ -71,7 +71,11 @@ func genC05(t *tape.Tape, tier string) any {
 			r.Form = []string{"abs", "origin"}[t.Pick(4, 2)]
 			host := []string{r.Token + ".ok.example", r.Token + ".other.example", "keep.other.example", "localhost", "127.0.0.1", "MyAlias.Local", "shared.ok.example"}[t.Pick(6, 4, 2, 1, 1, 1, 3)]
 			port := []string{"", ":80", ":8080", fmt.Sprintf(":%d", 10000+tok)}[t.Pick(4, 1, 2, 2)]
-			if pc.MITMHost != "" {
+			if pc.MITMHost != "" && t.Chance(1, 4) {
+				// an http:// request sent through the intercepted tunnel (absolute-form): it is routed like any plain request
+				r.Form = "abs"
+				port = []string{"", ":80", ":8080"}[t.Pick(3, 1, 2)]
+			} else if pc.MITMHost != "" {
 				r.Form = "origin"
 				port = []string{"", ":443", ":8443"}[t.Pick(4, 1, 1)]
 			} else if t.Chance(1, 4) && i == n-1 {
@@ -330,6 +334,11 @@ func oracleC05(w *polWorld, s *sut.SUT) {
 		if c.MITM && r.Kind == "connect" {
 			continue // answered by the interception machinery itself; the requests inside are what gets routed
 		}
+		innerPlain := inner && r.Form == "abs" && (r.Scheme == "" || r.Scheme == "http")
+		if innerPlain {
+			env.Probe("http_request_inside_intercepted_tunnel")
+		}
+		inner = inner && !innerPlain // from here on: "travels as https"
 		scheme := "http"
 		if inner {
 			scheme = "https"
